@@ -83,7 +83,7 @@ def is_array1d_equiv(a):
 
 def is_numeric(a):
     " for a ndarray "
-    return a.dtype.kind in ("i, f")
+    return a.dtype.kind in ("i", "u", "f") # unsigned integers included, as in core.indexing.is_numeric
 
 # =======================
 # A few useful decorators
